@@ -12,6 +12,16 @@ use crate::world::*;
 
 const NS: i128 = 1_000_000_000;
 
+/// Execute one grid cell; the world's fault-free baseline was verified earlier in this process and
+/// is kept as the history of any violation (process-wide state inside the library, e.g. a cached clock).
+fn exec_cell(check: &str, t: &SupplyTrace, baseline: &SupplyTrace, scratch: &Scratch, rec: &mut RunRecord, seed: u64, index: u64) {
+    let before = rec.own.len();
+    exec_supply(check, t, scratch, rec, seed, index);
+    for v in rec.own.iter_mut().skip(before) {
+        v.trace = crate::checks::Trace::Seq(vec![crate::checks::Trace::Supply(baseline.clone()), v.trace.clone()]);
+    }
+}
+
 fn sub_levels<'a>(l: &'a mut LevelSpec, depth: usize, out: &mut Vec<(usize, *mut LevelSpec)>) {
     out.push((depth, l as *mut LevelSpec));
     for f in l.files.iter_mut() {
@@ -143,7 +153,7 @@ pub fn run_c06(tier: Tier, seed: u64, index: u64, scratch: &Scratch, rec: &mut R
                         t.clock = if jump { vec![clock, (clock.0 + 365 * 86_400, clock.1)] } else { vec![clock] };
                         t.labels = vec![format!("d={dname}"), format!("n={nname}"), format!("t={iname}"), format!("pos={pos}"), if jump { "JUMP".into() } else { "CONST".into() }];
                         let before = rec.evaluations;
-                        exec_supply("C06", &t, scratch, rec, seed, index);
+                        exec_cell("C06", &t, &b, scratch, rec, seed, index);
                         let _ = before;
                         rec.sim_seconds += (e_s - clock.0).unsigned_abs() as f64;
                         if *dname == "-1ns" || *dname == "+1ns" || *dname == "0" {
@@ -248,7 +258,7 @@ pub fn run_c08(tier: Tier, seed: u64, index: u64, scratch: &Scratch, rec: &mut R
         }
         if done {
             t.labels.push("stage=SUB-INSPECTION-FAILS".into());
-            exec_supply("C08", &t, scratch, rec, seed, index);
+            exec_cell("C08", &t, &base, scratch, rec, seed, index);
             rec.probe("failing inspection inside a delegated level, surplus evidence");
         }
     }
@@ -297,7 +307,7 @@ pub fn run_c08(tier: Tier, seed: u64, index: u64, scratch: &Scratch, rec: &mut R
                 t.labels.push(format!("stage={}", stage.map(gen::fname).unwrap_or("none")));
                 t.labels.push(format!("exit={:?}{}", exit, if *noutf8 { "+NOUTF8" } else { "" }));
                 t.labels.push(format!("fileops={fo}"));
-                exec_supply("C08", &t, scratch, rec, seed, index);
+                exec_cell("C08", &t, &base, scratch, rec, seed, index);
                 match exit {
                     ExitSpec::Signal(_) => rec.probe("inspection killed by signal"),
                     ExitSpec::NotFound => rec.probe("inspection command not found"),
